@@ -4,6 +4,7 @@
 //!
 //!   pathset replay <in.ndjson> <out.ndjson>   spec -> impl: run TLC-generated histories
 //!   pathset record <meta.json> <out.ndjson>   impl -> spec: seeded worker-faithful random histories
+//!   pathset realtime <meta.json> <out.json>   real MultiPathManager, real worker task, real clock (smoke run)
 //!   pathset probe                             print facts about path construction (debugging)
 //!
 //! Both produce the same per-run format: {"run":n,"steps":[{"a":action,"s":state,"o":outcome}],"end":why}.
@@ -32,7 +33,7 @@ use sciparse::{
     path::{
         ScionPath,
         fingerprint::data_plane::DpPathFingerprint,
-        policy::{PathPolicy as SciparsePolicy, acl::AclPolicy},
+        policy::{PathPolicy as SciparsePolicy, acl::AclPolicy, hop_pattern::HopPatternPolicy},
     },
     payload::scmp::model::{
         ScmpErrorMessage, ScmpExternalInterfaceDown, ScmpInternalConnectivityDown,
@@ -85,6 +86,14 @@ struct Universe {
 }
 
 fn build_raw(p: &UPath, info_ts: u32) -> ScionPath {
+    build_variant(p, info_ts, if p.meta { "ok" } else { "nometa" })
+}
+
+/// The SAME data-plane path (same fingerprint: path type, src/dst, interface sequence) as different
+/// control-plane objects:  "ok" = with metadata;  "nometa" = without metadata (policy evaluation impossible);
+/// "bad666" = metadata names AS 1-666 for the first transit hop (denied by the ACL);
+/// "lowmtu" = metadata with MTU 1000 (rejected by the closure predicate).
+fn build_variant(p: &UPath, info_ts: u32, variant: &str) -> ScionPath {
     let src = ScionIpAddr::new(src_ia(), std::net::IpAddr::V4(std::net::Ipv4Addr::LOCALHOST));
     let dst = ScionIpAddr::new(dst_ia(), std::net::IpAddr::V4(std::net::Ipv4Addr::new(127, 0, 0, 2)));
     let mut b = TestPathBuilder::new(src.into(), dst.into())
@@ -92,21 +101,21 @@ fn build_raw(p: &UPath, info_ts: u32) -> ScionPath {
         .with_hop_expiry(0)
         .up();
     b = b.add_hop(0, p.src_eg);
-    for (asn, i, e) in &p.transit {
-        b = b.with_asn(*asn).add_hop(*i, *e);
+    for (k, (asn, i, e)) in p.transit.iter().enumerate() {
+        let asn = if variant == "bad666" && k == 0 { FORBIDDEN_ASN as u32 } else { *asn };
+        b = b.with_asn(asn).add_hop(*i, *e);
     }
     b = b.add_hop(p.dst_in, 0);
     let ctx = b.build(info_ts);
-    if p.meta {
-        ctx.path()
-    } else {
-        ScionPath::new(
-            src_ia(),
-            dst_ia(),
-            ctx.data_plane_path.try_encode_to_owned_view().expect("encode"),
-            None,
-            None,
-        )
+    let view = || ctx.data_plane_path.try_encode_to_owned_view().expect("encode");
+    match variant {
+        "nometa" => ScionPath::new(src_ia(), dst_ia(), view(), None, None),
+        "lowmtu" => {
+            let mut m = ctx.path_meta.clone();
+            m.mtu = 1000;
+            ScionPath::new(src_ia(), dst_ia(), view(), Some(m), None)
+        }
+        _ => ctx.path(),
     }
 }
 
@@ -157,11 +166,15 @@ impl Universe {
         Universe { paths, issues, by_fp, exp_delta }
     }
     fn path(&self, id: i64, exp_abs: u64) -> ScionPath {
+        self.path_v(id, exp_abs, "ok")
+    }
+    fn path_v(&self, id: i64, exp_abs: u64, variant: &str) -> ScionPath {
         let p = self.paths.iter().find(|p| p.id == id).unwrap_or_else(|| {
             eprintln!("unknown path id {id}");
             std::process::exit(2)
         });
-        let sp = build_raw(p, (exp_abs as u32).wrapping_sub(self.exp_delta));
+        let variant = if variant == "ok" && !p.meta { "nometa" } else { variant };
+        let sp = build_variant(p, (exp_abs as u32).wrapping_sub(self.exp_delta), variant);
         debug_assert_eq!(sp.expiration(), Some(exp_abs as u32));
         sp
     }
@@ -172,7 +185,25 @@ impl Universe {
 
 // ------------------------------------------------------------------------------------ policies
 
-/// "arbitrary predicate": allowed set keyed by fingerprint.
+/// "arbitrary predicate" over the path OBJECT: metadata present with MTU >= 1200 and the first egress
+/// interface is not `reject_first_eg`.
+#[derive(Clone)]
+struct ClosurePolicy {
+    reject_first_eg: u16,
+}
+impl ClosurePolicy {
+    fn verdict(&self, path: &ScionPath) -> bool {
+        path.metadata().is_some_and(|m| m.mtu >= 1200)
+            && path.first_egress_interface().is_none_or(|i| i.id != self.reject_first_eg)
+    }
+}
+impl PathPolicy for ClosurePolicy {
+    fn predicate(&self, path: &ScionPath) -> bool {
+        self.verdict(path)
+    }
+}
+
+/// allowed set keyed by fingerprint (used by the real-time smoke run)
 struct FpPolicy(HashSet<DpPathFingerprint>);
 impl PathPolicy for FpPolicy {
     fn predicate(&self, path: &ScionPath) -> bool {
@@ -181,10 +212,56 @@ impl PathPolicy for FpPolicy {
 }
 
 /// A policy whose evaluation fails (Err) for every path: must count as "rejected".
+#[derive(Clone)]
 struct FailingPolicy;
 impl SciparsePolicy for FailingPolicy {
     fn path_allowed(&self, _path: &ScionPath) -> Result<bool, std::borrow::Cow<'static, str>> {
         Err("cannot evaluate".into())
+    }
+}
+
+/// One attached policy; `verdict` evaluates the REAL policy object directly on a path object,
+/// independently of PathStrategy::predicate (an evaluation error counts as rejection).
+#[derive(Clone)]
+enum Pol {
+    Acl(AclPolicy),
+    Hop(HopPatternPolicy),
+    Closure(ClosurePolicy),
+    Failing,
+}
+impl Pol {
+    fn from_meta(v: &Value) -> Result<Pol, String> {
+        match v["k"].as_str().unwrap_or("") {
+            "acl" => AclPolicy::parse(v["s"].as_str().unwrap_or("")).map(Pol::Acl).map_err(|e| format!("acl parse: {e}")),
+            "hop" => HopPatternPolicy::parse(v["s"].as_str().unwrap_or("")).map(Pol::Hop).map_err(|e| format!("hop pattern parse: {e:?}")),
+            "closure" => Ok(Pol::Closure(ClosurePolicy { reject_first_eg: v["reject_first_eg"].as_u64().unwrap_or(0) as u16 })),
+            "failing" => Ok(Pol::Failing),
+            other => Err(format!("unknown policy kind {other}")),
+        }
+    }
+    fn verdict(&self, p: &ScionPath) -> bool {
+        match self {
+            Pol::Acl(a) => a.path_allowed(p).unwrap_or(false),
+            Pol::Hop(h) => h.path_allowed(p).unwrap_or(false),
+            Pol::Closure(c) => c.verdict(p),
+            Pol::Failing => false,
+        }
+    }
+    fn attach_vec(&self) -> Arc<dyn PathPolicy> {
+        match self {
+            Pol::Acl(a) => Arc::new(a.clone()),
+            Pol::Hop(h) => Arc::new(h.clone()),
+            Pol::Closure(c) => Arc::new(c.clone()),
+            Pol::Failing => Arc::new(FailingPolicy),
+        }
+    }
+    fn attach_add(&self, st: &mut scion_stack::path::PathStrategy) {
+        match self {
+            Pol::Acl(a) => st.add_policy(a.clone()),
+            Pol::Hop(h) => st.add_policy(h.clone()),
+            Pol::Closure(c) => st.add_policy(c.clone()),
+            Pol::Failing => st.add_policy(FailingPolicy),
+        }
     }
 }
 
@@ -229,7 +306,9 @@ fn poll_once<F: Future>(f: F) -> Option<F::Output> {
 struct Cfg {
     unit: u64,
     vc: VerifConfig,
-    policy: String,
+    pols: Vec<Pol>,
+    /// attach the policies through PathStrategy::add_policy (after construction) instead of the policy vector
+    attach_add: bool,
     late: i64,
 }
 
@@ -256,10 +335,21 @@ fn cfg_from_meta(meta: &Value) -> Cfg {
     vc.issue_broadcast_size = c["chan_cap"].as_u64().unwrap() as usize;
     vc.issue_deduplication_window = t("dedup");
     vc.path_swap_score_threshold = (c["swap_thr_milli"].as_i64().unwrap() as f32) / 1000.0;
+    let mut pols = vec![];
+    for v in meta["policies"].as_array().cloned().unwrap_or_default() {
+        match Pol::from_meta(&v) {
+            Ok(p) => pols.push(p),
+            Err(e) => {
+                eprintln!("{e}");
+                std::process::exit(2)
+            }
+        }
+    }
     Cfg {
         unit,
         vc,
-        policy: meta["policy"].as_str().unwrap_or("none").to_string(),
+        pols,
+        attach_add: meta["attach"].as_str() == Some("add"),
         late: meta["late"].as_i64().unwrap_or(1),
     }
 }
@@ -300,21 +390,15 @@ fn exp_ticks(cfg: &Cfg, e: Option<u32>) -> Value {
 impl<'a> Run<'a> {
     fn new(uni: &'a Universe, cfg: &'a Cfg) -> Result<Run<'a>, String> {
         let script = Arc::new(Mutex::new(Script::default()));
-        let mut pols: Vec<Arc<dyn PathPolicy>> = vec![];
-        match cfg.policy.as_str() {
-            "none" => {}
-            "closure" => {
-                let allowed = uni.paths.iter().filter(|p| p.ok).map(|p| build_raw(p, 1000).fingerprint()).collect();
-                pols.push(Arc::new(FpPolicy(allowed)));
+        let strategy = if cfg.attach_add {
+            let mut st = verif_strategy(vec![], true);
+            for p in &cfg.pols {
+                p.attach_add(&mut st);
             }
-            "acl" => {
-                let acl = AclPolicy::parse(&format!("- 1-{FORBIDDEN_ASN} +")).map_err(|e| format!("acl parse: {e}"))?;
-                pols.push(Arc::new(acl));
-            }
-            "failing" => pols.push(Arc::new(FailingPolicy)),
-            other => return Err(format!("unknown policy mode {other}")),
-        }
-        let strategy = verif_strategy(pols, true);
+            st
+        } else {
+            verif_strategy(cfg.pols.iter().map(|p| p.attach_vec()).collect(), true)
+        };
         let vps = VerifPathSet::new(src_ia(), dst_ia(), tick_time(cfg, 0), cfg.vc.into_config(), Fetcher(script.clone()), strategy)
             .map_err(|e| format!("config rejected: {e}"))?;
         Ok(Run { uni, cfg, vps, script, now: 0, dead: None })
@@ -337,8 +421,16 @@ impl<'a> Run<'a> {
                 "exp": exp_ticks(self.cfg, e.expiration),
                 "sc": (e.score as f64 * 10000.0).round() as i64,
                 "rel": (e.reliability as f64 * 10000.0).round() as i64,
+                "ok": self.verdicts(&e.path).iter().all(|b| *b),
             })).collect::<Vec<_>>(),
-            "active": match &s.active { None => Value::Null, Some((fp, e)) => json!({"id": self.uni.id_of(fp), "exp": exp_ticks(self.cfg, *e)}) },
+            "active": match (&s.active, &s.active_path) {
+                (Some((fp, e)), Some(p)) => {
+                    let pol = self.verdicts(p);
+                    json!({"id": self.uni.id_of(fp), "exp": exp_ticks(self.cfg, *e), "ok": pol.iter().all(|b| *b), "pol": pol,
+                           "meta": p.metadata().is_some()})
+                }
+                _ => Value::Null,
+            },
             "nr": to_ticks(self.cfg, s.next_refetch),
             "ni": to_ticks(self.cfg, s.next_idle_check),
             "failed": s.failed_attempts,
@@ -353,12 +445,19 @@ impl<'a> Run<'a> {
         })
     }
 
+    /// every attached REAL policy evaluated directly on the object
+    fn verdicts(&self, p: &ScionPath) -> Vec<bool> {
+        self.cfg.pols.iter().map(|pol| catch(|| pol.verdict(p)).unwrap_or(false)).collect()
+    }
+
     fn handout(&self, r: Result<Option<ScionPath>, String>) -> Value {
         match r {
             Err(m) => json!({"k": "panic", "msg": m}),
             Ok(None) => json!({"k": "none"}),
             Ok(Some(p)) => json!({
                 "k": "path",
+                "pol": self.verdicts(&p),
+                "ok": self.verdicts(&p).iter().all(|b| *b),
                 "id": self.uni.id_of(&p.fingerprint()),
                 "exp": exp_ticks(self.cfg, p.expiration()),
                 "src_ok": p.src_ia() == src_ia(),
@@ -384,7 +483,8 @@ impl<'a> Run<'a> {
                         .iter()
                         .map(|p| {
                             let e = p["exp"].as_i64().unwrap();
-                            self.uni.path(p["id"].as_i64().unwrap(), (T0 as i64 + e * self.cfg.unit as i64) as u64)
+                            self.uni.path_v(p["id"].as_i64().unwrap(), (T0 as i64 + e * self.cfg.unit as i64) as u64,
+                                            p["v"].as_str().unwrap_or("ok"))
                         })
                         .collect())),
                     Some("empty") => Some(Ok(vec![])),
@@ -577,6 +677,7 @@ fn record(metap: &str, outp: &str) {
     let runs = meta["runs"].as_u64().unwrap_or(10);
     let nsteps = meta["steps"].as_u64().unwrap_or(200);
     let burst = meta["burst"].as_u64().unwrap_or(3);
+    let p_variant = meta["p_variant"].as_u64().unwrap_or(0);
     let exp_choices: Vec<i64> = meta["exp_choices"].as_array().map(|a| a.iter().map(|x| x.as_i64().unwrap()).collect()).unwrap_or_else(|| vec![1, 2, 3, 4, 6, 9]);
     let mut rng = Rng::new(vh_core::seed_from_env() ^ meta["salt"].as_u64().unwrap_or(0));
     let mut w = NdjsonWriter::create(outp);
@@ -611,14 +712,17 @@ fn record(metap: &str, outp: &str) {
                     if rng.chance(1, 3) { json!({"k": "empty"}) } else { json!({"k": "err"}) }
                 } else {
                     let mut ps = vec![];
+                    let variant = |rng: &mut Rng| -> &'static str {
+                        if p_variant > 0 && rng.chance(p_variant, 100) { *rng.pick(&["nometa", "bad666", "lowmtu"]) } else { "ok" }
+                    };
                     for p in &uni.paths {
                         if rng.chance(1, 2) {
-                            ps.push(json!({"id": p.id, "exp": run.now + *rng.pick(&exp_choices)}));
+                            ps.push(json!({"id": p.id, "exp": run.now + *rng.pick(&exp_choices), "v": variant(&mut rng)}));
                         }
                     }
                     if ps.is_empty() {
                         let p = rng.pick(&uni.paths);
-                        ps.push(json!({"id": p.id, "exp": run.now + *rng.pick(&exp_choices)}));
+                        ps.push(json!({"id": p.id, "exp": run.now + *rng.pick(&exp_choices), "v": variant(&mut rng)}));
                     }
                     json!({"k": "ok", "paths": ps})
                 };
@@ -643,6 +747,103 @@ fn record(metap: &str, outp: &str) {
         w.write(&json!({"run": n, "steps": steps, "end": end}));
     }
     w.finish();
+}
+
+// ------------------------------------------------------------------------------------ real time
+
+/// A lookup service for the real-time smoke run: the first lookup returns path 1 (lifetime `life` s) and the
+/// policy-violating path 4; every later lookup fails.
+#[derive(Clone)]
+struct RtFetcher {
+    uni: Arc<Universe>,
+    t0: SystemTime,
+    life: u64,
+    calls: Arc<Mutex<Vec<u128>>>,
+}
+impl PathFetcher for RtFetcher {
+    fn fetch_paths(
+        &self,
+        _src: IsdAsn,
+        _dst: IsdAsn,
+    ) -> impl Future<Output = Result<Vec<ScionPath>, PathFetchError>> + Send + '_ {
+        async move {
+            let mut g = self.calls.lock().unwrap();
+            g.push(SystemTime::now().duration_since(self.t0).map(|d| d.as_millis()).unwrap_or(0));
+            if g.len() == 1 {
+                let base = self.t0.duration_since(SystemTime::UNIX_EPOCH).unwrap().as_secs();
+                Ok(vec![self.uni.path(1, base + self.life), self.uni.path(4, base + 10 * self.life)])
+            } else {
+                Err(PathFetchError::InternalError("scripted failure".into()))
+            }
+        }
+    }
+}
+
+/// Real `MultiPathManager` with its real worker task and the real clock, observed only through the public
+/// hand-out functions (`cached_path`, `path`, `PathManager::path_wait`).  All judged instants keep >= 5 s of
+/// margin from the boundaries the code reads from the clock (the P-monitor ignores samples inside the margins).
+fn realtime(metap: &str, outp: &str) {
+    use scion_stack::path::manager::{MultiPathManager, MultiPathManagerConfig, traits::PathManager};
+    let meta: Value = serde_json::from_str(&std::fs::read_to_string(metap).expect("meta")).expect("meta json");
+    let uni = Arc::new(Universe::from_meta(&meta));
+    let life = meta["life"].as_u64().unwrap_or(12);
+    let total_ms = meta["total_ms"].as_u64().unwrap_or(20_000);
+    let rt = tokio::runtime::Builder::new_multi_thread().worker_threads(2).enable_all().build().expect("runtime");
+    let samples = rt.block_on(async {
+        let t0 = SystemTime::now();
+        let calls = Arc::new(Mutex::new(vec![]));
+        let fetcher = RtFetcher { uni: uni.clone(), t0, life, calls: calls.clone() };
+        let allowed: HashSet<DpPathFingerprint> =
+            uni.paths.iter().filter(|p| p.ok).map(|p| build_raw(p, 1000).fingerprint()).collect();
+        let strategy = verif_strategy(vec![Arc::new(FpPolicy(allowed))], true);
+        let cfg = MultiPathManagerConfig::default()
+            .with_min_expiry_threshold(Duration::from_secs(3))
+            .with_min_refetch_delay(Duration::from_secs(1))
+            .with_refetch_interval(Duration::from_secs(30));
+        let mut samples: Vec<Value> = vec![];
+        let mgr = match MultiPathManager::new(cfg, fetcher, strategy) {
+            Ok(m) => m,
+            Err(e) => return json!({"rejected": e.to_string(), "samples": samples}),
+        };
+        let base = t0.duration_since(SystemTime::UNIX_EPOCH).unwrap().as_secs() as i64;
+        let mut k = 0u64;
+        loop {
+            let now = SystemTime::now();
+            let el = now.duration_since(t0).map(|d| d.as_millis() as u64).unwrap_or(0);
+            if el > total_ms {
+                break;
+            }
+            let via;
+            let r: Result<Option<ScionPath>, String> = if k % 4 == 3 {
+                via = "path_wait";
+                let m2 = mgr.clone();
+                // run in a task so that a panic (debug assertion) is an observation
+                match tokio::spawn(async move {
+                    tokio::time::timeout(Duration::from_millis(400), m2.path_wait(src_ia(), dst_ia(), now)).await
+                })
+                .await
+                {
+                    Ok(Ok(Ok(p))) => Ok(Some(p)),
+                    Ok(Ok(Err(_))) => Ok(None),
+                    Ok(Err(_)) => Err("timeout".into()),
+                    Err(e) => Err(format!("panic:{e}")),
+                }
+            } else {
+                via = "cached_path";
+                catch(|| mgr.cached_path(src_ia(), dst_ia(), now)).map_err(|m| format!("panic:{m}"))
+            };
+            samples.push(match r {
+                Ok(Some(p)) => json!({"ms": el, "via": via, "k": "path", "id": uni.id_of(&p.fingerprint()),
+                                      "exp_s": p.expiration().map(|e| e as i64 - base)}),
+                Ok(None) => json!({"ms": el, "via": via, "k": "none"}),
+                Err(m) => json!({"ms": el, "via": via, "k": if m.starts_with("panic") { "panic" } else { "timeout" }, "msg": m}),
+            });
+            k += 1;
+            tokio::time::sleep(Duration::from_millis(250)).await;
+        }
+        json!({"life": life, "samples": samples, "lookups_ms": *calls.lock().unwrap()})
+    });
+    std::fs::write(outp, serde_json::to_string(&samples).unwrap()).expect("write");
 }
 
 fn probe() {
@@ -671,9 +872,15 @@ fn main() {
     match args.get(1).map(|s| s.as_str()) {
         Some("replay") if args.len() == 4 => replay(&args[2], &args[3]),
         Some("record") if args.len() == 4 => record(&args[2], &args[3]),
+        Some("realtime") if args.len() == 4 => {
+            drop(_g);
+            drop(rt);
+            realtime(&args[2], &args[3]);
+            return;
+        }
         Some("probe") => probe(),
         _ => {
-            eprintln!("usage: pathset replay <in.ndjson> <out.ndjson> | record <meta.json> <out.ndjson> | probe");
+            eprintln!("usage: pathset replay <in.ndjson> <out.ndjson> | record <meta.json> <out.ndjson> | realtime <meta.json> <out.json> | probe");
             std::process::exit(2)
         }
     }
